@@ -28,17 +28,22 @@ def main():
         ck.add_tlc(summ, 'Cmp ReadPinned + expected comparison events keys=%d sizes=(%d,%d)' % (nk, lf, it))
         key = tlc.spec_hash('Cmp', c, 'CE', None, None, None)
         fn, p2, s2 = shapes.dump_file(nk, 1, lf, it, spec='SpecCore')
-        evdumps.append((nk, lf, it, '%s/dumps/Cmp-%s.json' % (tlc.CACHE, key), fn, len(payloads)))
+        #    CmpRange: the same for the range machinery (BTree_findRangeEnd, BTree_rangeSearch, BTree_maxminKey)
+        cr = shapes.cfg(nk, 1, lf, it, spec='SpecCore', invariants=('RangeReadPinned', 'EndpointCmpOK', 'DumpEvR'))
+        rpay, rsumm = tlc.cached_payloads('CmpRange', cr, 'CR', workers=1, timeout=3400)
+        ck.add_tlc(rsumm, 'CmpRange RangeReadPinned + expected comparison events of range calls keys=%d sizes=(%d,%d)' % (nk, lf, it))
+        rkey = tlc.spec_hash('CmpRange', cr, 'CR', None, None, None)
+        evdumps.append((nk, lf, it, '%s/dumps/Cmp-%s.json' % (tlc.CACHE, key), fn, len(payloads), '%s/dumps/CmpRange-%s.json' % (tlc.CACHE, rkey)))
     # 2. spec -> code (C, object keys): pinned sets at every comparison, sweeps inside every comparison
     plan = []
-    for (nk, lf, it, evfn, fn, n) in evdumps:
+    for (nk, lf, it, evfn, fn, n, revfn) in evdumps:
         idx = list(range(n))
         ck.rng.shuffle(idx)
         idx = idx[:120] if quick else idx
         parts = 8
         for is_set in (True, False):
             for p in range(parts):
-                plan.append(dict(impl='c', is_set=is_set, leaf=lf, internal=it, dump=fn, events=evfn, indices=sorted(idx[p::parts]), query_every=4 if quick else 1))
+                plan.append(dict(impl='c', is_set=is_set, leaf=lf, internal=it, dump=fn, events=evfn, revents=revfn, indices=sorted(idx[p::parts]), query_every=4 if quick else 1))
     results = jobs.run_jobs('harness.workers.pins_worker', plan)
     for job, res, err in results:
         ident = dict(impl=job['impl'], is_set=job['is_set'], sizes=[job['leaf'], job['internal']])
